@@ -31,7 +31,16 @@ func checkC11(r *core.Run) {
 	c11Workers(r, p)
 	c11WorkerLocksBalanced(r, p, "R-C11-workers")
 	c11StaticDecoder(r, p, "R-C11-workers")
+	// the per-transaction digest caches that the parallel verifiers of one transaction share
+	for _, hn := range []struct{ fn, key string }{{"lib/btc.(*Tx).WitnessSigHash", "bip143"}, {"lib/btc.(*Tx).TaprootSigHash", "bip341"}} {
+		if f := p.Func(hn.fn); f != nil {
+			c02HashLock(r, p, f, hn.key, "R-C11-workers")
+		} else {
+			r.Fail("R-C11-workers", hn.key+"/hash-lock", "-", hn.fn+" not found")
+		}
+	}
 	c11DoneIsLast(r, p, "R-C11-workers")
+	c03Reentrant(r, p, "R-C11-workers") // the script verifiers of one block run the signature code concurrently
 	sentBufferNotReused(r, p, "R-C11-workers", []string{"lib/utxo", "lib/chain", "lib/btc"}, 2)
 	// the same state whatever the schedule: every element of the lists handed to workers is handed to exactly one
 	for _, bf := range []struct {
